@@ -90,6 +90,7 @@ func c11Retries(r *hk.Run, rng *hk.Rand, o *c11Origin, n int) {
 		p2.cred, p2.hdr, p2.override = p1.cred, p1.hdr, p1.override
 		c := req.C().SetRedirectPolicy(specsMk(specs)...).SetDial(o.dial)
 		applyClientCreds(c, p1.cred)
+		applyOthers(r, rng, c, o)
 		// one script: chain 1, the 503, chain 2
 		whole := p1
 		whole.loc = append(append(append([]string(nil), p1.loc...), ""), p2.loc...)
@@ -167,6 +168,7 @@ func c11Downloads(r *hk.Run, rng *hk.Rand, o *c11Origin, n int) {
 		o.scripts[id] = &c11Script{loc: p.loc, status: p.status}
 		o.mu.Unlock()
 		c := req.C().SetRedirectPolicy(specsMk(specs)...).SetDial(o.dial)
+		applyOthers(r, rng, c, o)
 		vals := []string{"Bearer secret", "Basic realm=x", "sid=secret", "$Version=1", "tok"}
 		for k, name := range c11Hdr { // a download has client-level headers only
 			p.hdr[k] = 0
@@ -275,6 +277,7 @@ func c11Digests(r *hk.Run, rng *hk.Rand, o *c11Origin, n int) {
 		genOverride(rng, &p, 15)
 		c := req.C().SetRedirectPolicy(specsMk(specs)...).SetDial(o.dial)
 		applyClientCreds(c, p.cred)
+		applyOthers(r, rng, c, o)
 		whole := p
 		whole.loc = append(append([]string(nil), p.loc...), "")
 		whole.status = append(append([]int(nil), p.status...), 401)
